@@ -1700,6 +1700,9 @@ class Normalizer:
                 break
             self.rounds.append(defs)
             block = _if_convert(_drop_sets(deref(block, defs), set(defs)))
+            fused = _fuse_loops(_fuse_comps(block), fresh)
+            if fused != block:
+                block = _index_loops(fused)
             defs = single_defs(block, keep_identity)
         mapping: dict = {}
 
@@ -2012,18 +2015,30 @@ def _unfold_list_comps(block: tuple, fresh) -> tuple:
             tgt = var
         sg = Sigma(raw_subst=mapping)
         elt = sg.apply(comp[2][0])
-        app = ("expr", ("c", ("a", target, "append"), (elt,), ()))
+        if comp[1] == "dict":
+            app = ("set", ("s", target, elt), sg.apply(comp[2][1]))
+        else:
+            app = ("expr", ("c", ("a", target, "append"), (elt,), ()))
         body = (app,) if cond == K_TRUE else (("if", sg.apply(cond), (app,), ()),)
         return ("for", tgt, it, body, ())
 
     def simple(comp):
         return isinstance(comp, tuple) and comp[:2] == ("comp", "list") and len(comp[3]) == 1 and len(comp[2]) == 1 \
             and not atoms_of(comp[2][0], lambda x: x[0] in ("comp", "lambda")) and not atoms_of(comp[3][0][2], lambda x: x[0] in ("comp", "lambda"))
+
+    def simple_dict(comp):
+        return isinstance(comp, tuple) and comp[:2] == ("comp", "dict") and len(comp[3]) == 1 and len(comp[2]) == 2 \
+            and not atoms_of(comp[2], lambda x: x[0] in ("comp", "lambda")) and not atoms_of(comp[3][0][2], lambda x: x[0] in ("comp", "lambda"))
     out = []
     for st in block:
         if isinstance(st, tuple) and st:
             if st[0] == "set" and len(st) == 3 and isinstance(st[1], tuple) and st[1][:1] == ("v",) and simple(st[2]):
                 out.append(("set", st[1], ("list", ())))
+                out.append(loop(st[1], st[2]))
+                continue
+            if st[0] == "set" and len(st) == 3 and isinstance(st[1], tuple) and st[1][:1] == ("v",) and simple_dict(st[2]):
+                # a dict comprehension is the loop that stores every entry
+                out.append(("set", st[1], ("dict", ())))
                 out.append(loop(st[1], st[2]))
                 continue
             if st[0] == "ret" and simple(st[1]):
@@ -2051,6 +2066,86 @@ def _unfold_list_comps(block: tuple, fresh) -> tuple:
                 st = ("for", st[1], st[2], _unfold_list_comps(st[3], fresh), _unfold_list_comps(st[4], fresh))
             elif st[0] == "while" and len(st) == 4:
                 st = ("while", st[1], _unfold_list_comps(st[2], fresh), _unfold_list_comps(st[3], fresh))
+        out.append(st)
+    return tuple(out)
+
+
+def _simple_comp(c) -> bool:
+    return isinstance(c, tuple) and len(c) == 4 and c[0] == "comp" and c[1] in ("gen", "list") and len(c[3]) == 1 and len(c[2]) == 1 \
+        and not atoms_of((c[2], c[3][0][2]), lambda x: x[0] in ("comp", "lambda"))
+
+
+def _match_target(tgt, e) -> Optional[dict]:
+    """{target variable: component of e} for a target that is a variable or a tuple of variables"""
+    if isinstance(tgt, tuple) and tgt[:1] in (("b",), ("v",)):
+        return {tgt: e}
+    if isinstance(tgt, tuple) and tgt[:1] == ("tuple",) and isinstance(e, tuple) and e[:1] == ("tuple",) and len(tgt[1]) == len(e[1]):
+        out: dict = {}
+        for t, x in zip(tgt[1], e[1]):
+            m = _match_target(t, x)
+            if m is None:
+                return None
+            out.update(m)
+        return out
+    return None
+
+
+def _plain_subst(x, mp: dict):
+    if isinstance(x, tuple):
+        if x in mp:
+            return mp[x]
+        return tuple(_plain_subst(y, mp) for y in x)
+    return x
+
+
+def _fuse_comps(x):
+    """a comprehension over a comprehension is one comprehension: ``f(y) for y in (g(x) for x in xs if c)`` == ``f(g(x)) for x in xs if c``
+    (one generator each, no nested scopes)"""
+    if not isinstance(x, tuple):
+        return x
+    x = tuple(_fuse_comps(y) for y in x)
+    if len(x) == 4 and x[0] == "comp" and len(x[3]) == 1 and _simple_comp(x[3][0][1]) \
+            and not atoms_of((x[2], x[3][0][2]), lambda y: y[0] in ("comp", "lambda")):
+        tgt, inner, cond = x[3][0]
+        mp = _match_target(tgt, inner[2][0])
+        if mp is not None and all(k[0] == "b" for k in mp):
+            tgt2, it2, cond2 = inner[3][0]
+            x = ("comp", x[1], _renorm(_plain_subst(x[2], mp)), ((tgt2, it2, mk_and([cond2, _renorm(_plain_subst(cond, mp))])),))
+    return x
+
+
+def _renorm(x):
+    """re-establish the polynomial normal form after a substitution"""
+    return Sigma(raw_subst={}).apply(x)
+
+
+def _fuse_loops(block: tuple, fresh) -> tuple:
+    """a loop over a comprehension is the loop over its source: ``for y in (g(x) for x in xs if c): body(y)`` ==
+    ``for x in xs: if c: body(g(x))`` (the loop target not re-bound in the body)"""
+    out = []
+    for st in block:
+        if isinstance(st, tuple) and st:
+            if st[0] == "if" and len(st) == 4:
+                st = ("if", st[1], _fuse_loops(st[2], fresh), _fuse_loops(st[3], fresh))
+            elif st[0] == "while" and len(st) == 4:
+                st = ("while", st[1], _fuse_loops(st[2], fresh), _fuse_loops(st[3], fresh))
+            elif st[0] == "for" and len(st) == 5:
+                st = ("for", st[1], st[2], _fuse_loops(st[3], fresh), _fuse_loops(st[4], fresh))
+                if _simple_comp(st[2]):
+                    inner = st[2]
+                    mp = _match_target(st[1], inner[2][0])
+                    tgt2, it2, cond2 = inner[3][0]
+                    bvars = [tgt2] if tgt2[:1] == ("b",) else (list(tgt2[1]) if tgt2[:1] == ("tuple",) and all(t[:1] == ("b",) for t in tgt2[1]) else None)
+                    rebound = atoms_of(st[3], lambda y: (y[0] in ("set", "for") and len(y) >= 3 and mp is not None and (y[1] in mp or (y[1][:1] == ("tuple",) and any(t in mp for t in y[1][1]))))
+                                       or (y[0] == "aug" and len(y) == 4 and mp is not None and y[2] in mp))
+                    if mp is not None and bvars is not None and not rebound and not st[4]:
+                        new = {b: fresh() for b in bvars}
+                        mp2 = {k: _plain_subst(v, new) for k, v in mp.items()}
+                        body = _renorm(_plain_subst(st[3], mp2))
+                        c2 = _renorm(_plain_subst(cond2, new))
+                        if c2 != K_TRUE:
+                            body = (("if", c2, tuple(body), ()),)
+                        st = ("for", _plain_subst(tgt2, new), it2, tuple(body), ())
         out.append(st)
     return tuple(out)
 
